@@ -498,6 +498,46 @@ func (g *TxGen) mkRegisterNode() *GenTx {
 	n := nodes[g.rng.IntN(len(nodes))]
 	mode := g.rng.IntN(14)
 	switch {
+	case mode == 12 && n.IsCompute() && !n.IsKeyManager() && len(n.Runtimes) > 0 && g.rng.IntN(3) == 0:
+		// A descriptor that lists one runtime with a repeated version (twice the same, or three entries
+		// whose repeated version is not the first): must be refused, never stored (a stored list with
+		// redundant versions makes every later update of the node fail hard).
+		// Preferably as the FIRST registration of a node that is not registered at the moment (no update
+		// rules of an existing descriptor stand in the way).
+		for _, i := range g.rng.Perm(len(nodes)) {
+			if c := nodes[i]; c.IsCompute() && !c.IsKeyManager() && len(c.Runtimes) > 0 && g.view().Nodes[c.Keys.ID.PK] == nil && g.view().Entities[c.Entity.PK] != nil {
+				n = c
+				break
+			}
+		}
+		oldRts := n.Runtimes
+		first := n.Runtimes[0]
+		other := rtVersion2
+		if first.Version == rtVersion2 {
+			other = rtVersion1
+		}
+		var list []*node.Runtime
+		switch g.rng.IntN(3) {
+		case 0:
+			list = []*node.Runtime{{ID: first.ID, Version: first.Version}, {ID: first.ID, Version: first.Version}}
+		case 1:
+			list = []*node.Runtime{{ID: first.ID, Version: first.Version}, {ID: first.ID, Version: other}, {ID: first.ID, Version: other}}
+		default:
+			list = []*node.Runtime{{ID: first.ID, Version: other}, {ID: first.ID, Version: first.Version}, {ID: first.ID, Version: first.Version}}
+		}
+		for _, r := range oldRts[1:] {
+			if r.ID != first.ID {
+				list = append(list, r)
+			}
+		}
+		n.Runtimes = list
+		nd := NodeDescriptor(n, beacon.EpochTime(g.view().Epoch+2))
+		sn := signNode(NodeSigners(n), nd)
+		tx := registry.NewRegisterNodeTx(g.nonce(n.Keys.ID), g.feeSure(g.nodeGas(n)+4000), sn)
+		n.Runtimes = oldRts
+		gt := g.finish(n.Keys.ID, tx, n.Name+" redundant-runtime-versions")
+		gt.Intent = "post:redundant-runtime-versions"
+		return gt
 	case mode == 12:
 		// Change the roles of a node: upgrades are allowed, downgrades of a live node are not
 		// (rejected late, after the stake claims were recomputed).
